@@ -260,7 +260,7 @@ def _roundtrip_cases():
 
 
 def t_roundtrip(rec, seed, tier, shard):
-    n = 800 if tier == "quick" else 15000
+    n = 2000 if tier == "quick" else 15000
 
     def body(case):
         rec.ev()
@@ -347,7 +347,7 @@ def t_corrupt_hyp(rec, seed, tier):
     """generated corruptions of a valid URI: drop/duplicate a parameter, conflicting issuer prefix"""
     from hypothesis import strategies as st
 
-    n = 400 if tier == "quick" else 6000
+    n = 1000 if tier == "quick" else 6000
     txt = _texts()
 
     @st.composite
@@ -382,7 +382,7 @@ def t_corrupt_hyp(rec, seed, tier):
 def t_wallet(rec, seed, tier):
     from hypothesis import strategies as st
 
-    n = 150 if tier == "quick" else 2500
+    n = 400 if tier == "quick" else 2500
     tagsets = st.sampled_from([["1"], ["1", "2"], ["2", "10"], ["9", "10", "100"], ["a", "b"], ["2016-01-01", "2016-05-16"], ["1", "b"], ["10", "9a"], ["01", "1x", "1"], [1, 2], ["A", "a"]])
 
     @st.composite
